@@ -4,6 +4,7 @@ import (
 	"fmt"
 	"go/ast"
 	"go/types"
+	"regexp"
 	"sort"
 	"strings"
 	"sync"
@@ -399,6 +400,7 @@ func (vc *FnVC) key(name, sort, kind string) *KeyInfo {
 	}
 	k := &KeyInfo{Name: name, Sort: sort, Kind: kind}
 	vc.keys[name] = k
+	vc.needSorts(sort)
 	vc.declare(entrySym(name), sort)
 	return k
 }
@@ -529,6 +531,26 @@ func (vc *FnVC) cellKey(elem types.Type) *KeyInfo {
 func (vc *FnVC) allocKey() *KeyInfo { return vc.key("$alloc", "Int", "alloc") }
 
 // structKeySort: the SMT datatype used for a struct type as a map key (fields must be scalar).
+var structSortDecls sync.Map // datatype name -> declaration
+
+var structSortRe = regexp.MustCompile(`K![^ ()]+`)
+
+// needSorts makes sure the struct-key datatypes mentioned in a sort expression are declared in this query set.
+func (vc *FnVC) needSorts(sort string) {
+	if !strings.Contains(sort, "K!") {
+		return
+	}
+	for _, n := range structSortRe.FindAllString(sort, -1) {
+		if vc.declSet[n] {
+			continue
+		}
+		if d, ok := structSortDecls.Load(n); ok {
+			vc.declSet[n] = true
+			vc.decls = append([]string{d.(string)}, vc.decls...) // the datatype must precede its uses
+		}
+	}
+}
+
 func structKeySort(t types.Type) (name string, decl string, ok bool) {
 	u, isS := t.Underlying().(*types.Struct)
 	if !isS {
@@ -544,6 +566,7 @@ func structKeySort(t types.Type) (name string, decl string, ok bool) {
 		fs = append(fs, fmt.Sprintf("(%s.%s %s)", name, u.Field(i).Name(), fsort))
 	}
 	decl = fmt.Sprintf("(declare-datatypes ((%s 0)) (((mk%s %s))))", name, name, strings.Join(fs, " "))
+	structSortDecls.Store(name, decl)
 	return name, decl, true
 }
 
